@@ -225,6 +225,18 @@ def histories(ctx, sut):
             inner_value = value
             if kind in WRAPPED_KINDS:
                 value = wrap_value(kind, inner_value)
+                if isinstance(value, (dict, list)) and rng.random() < 0.2:
+                    # the same JSON value as an untyped element hands it back (dict / list subclasses)
+                    try:
+                        value = sut.Element()(value)
+                        ctx.count("validate.value_relayed_through_untyped_element")
+                    except Exception:  # pylint: disable=broad-except
+                        pass
+            elif kind in ("String", "Element") and isinstance(value, str) and rng.random() < 0.15:
+                # the schema declares a default, and the value passed explicitly happens to equal it: it is a
+                # value like any other
+                element = (sut.String if kind == "String" else sut.Element)(format=name, default=value)
+                ctx.count("validate.value_equal_to_declared_default")
             del log[:]
             with warnings.catch_warnings(record=True) as caught:
                 warnings.simplefilter("always")
